@@ -447,6 +447,15 @@ def rule_k(ctx, cr):
               "NEXT does not put the frame back as it found it (%s): the limit/step of the loop "
               "changes after the first iteration or the frame is mis-read by the next NEXT"
               % (detail or "%d pops / %d pushes" % (len(npops), len(npush))))
+    # what FOR leaves on the stack is what NEXT takes off: 3 expressions - 1 store + the name
+    # literal + the Next marker of push_for = the 4 entries NEXT pops
+    lits = [c for c in g.calls_to("mach::link::Link::push")
+            if (g.stored_variant(g.value_of_operand(c.args[1])) or ("", ""))[1] == "Literal"]
+    left = len(apps) - len(store) + len(lits) + len(pf)
+    ctx.check(left == len(npops), "C01.k", "for/frame-size-agrees", g.span,
+              "FOR leaves %d entries, NEXT pops %d" % (left, len(npops)),
+              "FOR's template leaves %d entries on the stack but NEXT pops %d: every loop leaks "
+              "or eats stack entries" % (left, len(npops)))
     # continue <=> not done: pc store and re-push on the same paths
     pcs = [b for b, st, v in n.field_stores("pc")]
     okp = len(pcs) == 1 and npush and all(n.dominates(c.bb, pcs[0]) or n.dominates(pcs[0], c.bb)
